@@ -948,7 +948,10 @@ impl<'a> Message<'a> {
             }
 
             if ending_attributes.contains(&attr.get_type()) {
-                if seen_ending_attributes.contains(&attr.get_type()) {
+                // no duplicates, and nothing at all is allowed after a FINGERPRINT
+                if seen_ending_attributes.contains(&attr.get_type())
+                    || seen_ending_attributes.contains(&Fingerprint::TYPE)
+                {
                     if seen_ending_attributes.contains(&Fingerprint::TYPE) {
                         warn!("unexpected attribute {} after FINGERPRINT", attr.get_type());
                         return Err(StunParseError::AttributeAfterFingerprint(attr.get_type()));
